@@ -285,7 +285,7 @@ func (m *c05Machine) setSections(secs []c05Sec) {
 	for i, s := range secs {
 		h := sh[64*(i+1):]
 		le.PutUint32(h[0:], nameIdx[i])
-		le.PutUint32(h[4:], 1)
+		le.PutUint32(h[4:], [4]uint32{1, 8, 1, 7}[i%4]) // PROGBITS / NOBITS / NOTE: the type carries no meaning for the mapping
 		le.PutUint64(h[8:], s.Flags)
 		le.PutUint64(h[16:], s.Addr)
 		le.PutUint64(h[32:], s.Size)
@@ -341,7 +341,7 @@ func c05Perms(code uint64) PageTableEntryFlag {
 // addresses of the pages that are now reserved AND mapped (none for a refused request; none either if the
 // real code hands out something that does not lie below the temporary-mapping page, where nothing can be mapped).
 func c05Request(r c05Req) (res string, pages []uintptr) {
-	const maxPages = 64
+	const maxPages = 640
 	fl := c05Perms(r.Flags)
 	n := uintptr(0)
 	if r.Size <= maxPages*4096 {
@@ -409,7 +409,7 @@ func c05Run(m *c05Machine, enc *json.Encoder, c c05Case) {
 	// cfg event: the inputs, with the reservations as the boot address space translates them
 	secs := []c05Ev{}
 	for _, s := range c.Secs {
-		secs = append(secs, c05Ev{"a": c05W64(s.Addr), "sz": c05W64(s.Size), "fl": int(s.Flags & 0xffff)})
+		secs = append(secs, c05Ev{"a": c05W64(s.Addr), "sz": c05W64(s.Size), "fl": int(s.Flags & 0xffff), "flr": c05W64(s.Flags)})
 	}
 	rsv := []c05Ev{}
 	corrupt := false // the boot history left page tables that point outside physical memory
@@ -591,19 +591,34 @@ func TestVerifC05Cases(t *testing.T) {
 
 func c05RandomCase(rng *rand.Rand) c05Case {
 	var c c05Case
-	switch rng.Intn(6) {
+	switch rng.Intn(10) {
 	case 0:
 		c.Off = 0
 	case 1:
 		c.Off = 0x40000000
 	case 2:
 		c.Off = 0xffff900000000000
+	case 3:
+		c.Off = 0xffffc00000000000
+	case 4:
+		c.Off = 0x0000008000000000
 	default:
 		c.Off = c05RealOffset
 	}
-	nsec := 2 + rng.Intn(13)
+	// any count: none, one, a handful, now and then many small ones
+	nsec := rng.Intn(15)
+	many := rng.Intn(15) == 0
+	if many {
+		nsec = 30 + rng.Intn(35)
+	}
 	sizes := []uint64{1, 2, 4095, 4096, 4097, 8191, 8192, 8193, 12288}
 	randSize := func() uint64 {
+		if many {
+			return sizes[rng.Intn(5)]
+		}
+		if rng.Intn(40) == 0 {
+			return uint64(500+rng.Intn(600))*4096 + uint64(rng.Intn(4096)) // spans more than one last-level table
+		}
 		switch rng.Intn(10) {
 		case 0:
 			return 1 + uint64(rng.Intn(64*4096))
@@ -619,7 +634,7 @@ func c05RandomCase(rng *rand.Rand) c05Case {
 			fl |= 2 // most sections are allocated
 		}
 		if rng.Intn(3) == 0 {
-			fl |= []uint64{0x10, 0x20, 0x30, 0x40, 0x80, 0x400}[rng.Intn(6)]
+			fl |= []uint64{0x10, 0x20, 0x30, 0x40, 0x80, 0x400, 0x80000000, 0x0ff00000, 1 << 32, 7 << 32, 1 << 63}[rng.Intn(11)]
 		}
 		return fl
 	}
@@ -631,6 +646,9 @@ func c05RandomCase(rng *rand.Rand) c05Case {
 	}
 	if rng.Intn(5) == 0 {
 		base = c.Off + uint64(rng.Intn(1<<18))<<12 + 510*4096 // straddle page-table boundaries at several levels
+	}
+	if rng.Intn(8) == 0 {
+		base += 1 << 33 // loaded above 4 GiB: frame numbers beyond 32 bits of physical address
 	}
 	cur := base
 	var in []c05Sec
@@ -650,6 +668,10 @@ func c05RandomCase(rng *rand.Rand) c05Case {
 		sz := randSize()
 		if !linker && rng.Intn(6) == 0 {
 			sz = 4096 - a%4096 // ends exactly at the end of its page
+		}
+		if rng.Intn(8) == 0 {
+			// an empty section (ELF null section, empty .bss): no bytes, no pages - at a fresh page, mid-page, or address 0
+			in = append(in, c05Sec{Addr: []uint64{cur, cur + uint64(rng.Intn(4096)), 0}[rng.Intn(3)], Size: 0, Flags: randFlags()})
 		}
 		in = append(in, c05Sec{Addr: a, Size: sz, Flags: randFlags()})
 		cur = (a+sz-1)/4096*4096 + 4096
@@ -672,6 +694,13 @@ func c05RandomCase(rng *rand.Rand) c05Case {
 		if rng.Intn(4) == 0 && c.Off == c05RealOffset {
 			// the kernel's physical load address: same numbers as the frames the kernel occupies
 			below = append(below, c05Sec{Addr: 0x100000 + uint64(rng.Intn(4096)), Size: randSize(), Flags: randFlags()})
+		}
+	}
+	if c.Off != 0 && rng.Intn(3) == 0 {
+		// what a real ELF table also holds: non-loaded sections (.comment, .symtab, .strtab ...) that all sit at
+		// address 0 and overlap one another; they are outside the kernel's range
+		for i := rng.Intn(5); i > 0; i-- {
+			below = append(below, c05Sec{Addr: 0, Size: 1 + uint64(rng.Intn(3*4096)), Flags: uint64(rng.Intn(8)) &^ 2})
 		}
 	}
 	c.Secs = append(in, below...)
@@ -700,6 +729,9 @@ func c05RandomCase(rng *rand.Rand) c05Case {
 	for i := 0; i < nr; i++ {
 		refused()
 		pages := 1 + rng.Intn(3)
+		if rng.Intn(25) == 0 {
+			pages = 500 + rng.Intn(60) // a large early region (the frame bitmap of a big machine): crosses a page-table boundary
+		}
 		sz := uint64(pages)*4096 - uint64([4]int{0, 1, 2048, 4095}[rng.Intn(4)])
 		c.Hist = append(c.Hist, c05Req{Kind: rng.Intn(2), Size: sz, Frame: uint64(0x1000 + rng.Intn(1<<24)), Flags: uint64(rng.Intn(8))})
 		good += pages
